@@ -195,7 +195,7 @@ func (m *c04Machine) restart(noSnapOnClose bool) {
 	m.s.NoSnapshotOnClose = noSnapOnClose
 	stagedBefore := m.staged()
 	addr := m.s.Addr()
-	if err := m.s.Close(true); err != nil {
+	if err := g8aClose(m.s); err != nil {
 		m.fail("C04/close-error", "close failed: %v", err)
 	}
 	m.s.ly.Close()
